@@ -9,7 +9,7 @@
 //! method; `catch_unwind` is around every call; after a panic the object is probed for a poisoned mutex.
 //!
 //! Line protocol (shared with `lean/Driver/FfiDrv.lean`, which predicts the parse-level outcome):
-//!   `reset`                               rebuild the session (fresh databases, fresh groups)
+//!   `reset [cfg=<7 numbers|->]`           rebuild the session (fresh databases, fresh groups; both objects with that MdkConfig)
 //!   `<method> on=A|B key=value …`         one call
 //! string values:  `$TOKEN` [`^` upper-case] [`/N` first N bytes] [`+HEX` append bytes]  |  `h:HEX` (UTF-8
 //!   bytes) | `r:HEX:N` (pattern repeated N times); JSON-typed strings carry a class hint `!ok|!bad|!unk` that
@@ -202,7 +202,7 @@ impl Sess {
         Ok(ev.as_json())
     }
 
-    fn new() -> Result<Sess, String> {
+    fn new(cfg: &str) -> Result<Sess, String> {
         // SQLite's fsyncs dominate the run on a disk-backed /tmp (4 s per session against 60 ms)
         let dir = if std::path::Path::new("/dev/shm").is_dir() {
             tempfile::Builder::new().prefix("vh-ffi-").tempdir_in("/dev/shm")
@@ -210,8 +210,8 @@ impl Sess {
             tempfile::Builder::new().prefix("vh-ffi-").tempdir()
         }
         .map_err(|e| e.to_string())?;
-        let a = new_mdk_unencrypted(dir.path().join("a.db").to_string_lossy().to_string(), None).map_err(e2s)?;
-        let b = new_mdk_unencrypted(":memory:".to_string(), None).map_err(e2s)?;
+        let a = new_mdk_unencrypted(dir.path().join("a.db").to_string_lossy().to_string(), Self::cfg(cfg).ok_or("cfg")?).map_err(e2s)?;
+        let b = new_mdk_unencrypted(":memory:".to_string(), Self::cfg(cfg).ok_or("cfg")?).map_err(e2s)?;
         let (alice, bob, carol, dave) = (Keys::generate(), Keys::generate(), Keys::generate(), Keys::generate());
         let mut toks: HashMap<String, String> = HashMap::new();
         let mut btoks: HashMap<String, Vec<u8>> = HashMap::new();
@@ -662,7 +662,8 @@ pub fn main(_args: &[String]) -> i32 {
         }
         if t[0] == "reset" || sess.is_none() {
             sess = None; // drop the old databases first
-            match catch_unwind(Sess::new) {
+            let cfg = if t[0] == "reset" { field(&t, "cfg").unwrap_or("-").to_string() } else { "-".to_string() };
+            match catch_unwind(|| Sess::new(&cfg)) {
                 Ok(Ok(s)) => {
                     if t[0] == "reset" {
                         let lens: Vec<String> = ["G0", "EMSG0", "PKA", "NG0", "EW1", "EWRAP1"].iter().map(|k| format!("{k}={}", s.toks[*k].len())).collect();
